@@ -284,3 +284,35 @@ package schemabuilder
 //@ func connectionContext.applyBatchTextFilter$1
 //@   assume deref(filterField) != nil
 //@   call SafeExecuteBatchResolver assert arg1 == filterField && arg2 == nodes && arg3 == userArgs
+
+// ---- C11 (the connection is computed from the arguments the client sent): for a thunder-managed connection every
+// pagination argument of the parsed ConnectionArgs - window, cursors, text filter AND the fields it is restricted to, sort
+// and filter type - reaches getConnection unchanged.
+//@ func connectionContext.extractReturnAndErr
+//@   requires c != nil
+//@   ghost ext bool
+//@   call connectionContext.IsExternallyManaged ghost ext = ret0
+//@   call connectionContext.getConnection assert arg2 == out && (!ext && (args is ConnectionArgs) ==> arg3.First == args.(ConnectionArgs).First && arg3.Last == args.(ConnectionArgs).Last && arg3.After == args.(ConnectionArgs).After && arg3.Before == args.(ConnectionArgs).Before && arg3.FilterText == args.(ConnectionArgs).FilterText && arg3.FilterTextFields == args.(ConnectionArgs).FilterTextFields && arg3.SortBy == args.(ConnectionArgs).SortBy && arg3.SortOrder == args.(ConnectionArgs).SortOrder && arg3.FilterType == args.(ConnectionArgs).FilterType)
+
+// ---- C11 (the expensive text filter, one goroutine per node): the goroutine started for node k evaluates node k and
+// records the verdict at index k - the node and the index it was started with, whatever the loop does meanwhile.
+//@ func connectionContext.applyTextFilterNotBatchedExpensive$1
+//@   ghost k int
+//@   entry ghost k = deref(i)
+//@   ghost kept bool
+//@   requires 0 <= deref(i) && deref(i) < len(deref(nodesToKeep))
+//@   ghost nd interface{}
+//@   entry ghost nd = deref(node)
+//@   call connectionContext.checkFilters assert arg2 == nd
+//@   call connectionContext.checkFilters ghost kept = ret0
+//@   ensures old(deref(nodesToKeep))[k] == kept
+
+// ---- C14 (a batch field's advertised type): a batch resolver may leave sources out of its result map, and a missing entry
+// is delivered as null - so unless the field is registered NonNullable (which makes a missing entry an error) its advertised
+// type is never non-null, except for lists (an absent list is delivered as an empty list).
+//@ func batchFuncContext.consumeReturnValue
+//@   assume m != nil && funcCtx != nil && sb != nil
+//@   keeps method, batchFuncContext              // deriving the graph type of the element does not rewrite the registration
+//@   call schemaBuilder.getType#2 assume (ret0 is *graphql.NonNull) ==> ret0.(*graphql.NonNull) != nil && !(ret0.(*graphql.NonNull).Type is *graphql.NonNull)       // getType wraps a type in NonNull at most once
+//@   ensures err == nil && !old(funcCtx.hasRet) && funcCtx.hasRet && !m.MarkedNonNullable && (result is *graphql.NonNull) ==> (result.(*graphql.NonNull).Type is *graphql.List)
+//@   ensures err == nil && !old(funcCtx.hasRet) && funcCtx.hasRet && m.MarkedNonNullable ==> (result is *graphql.NonNull) && funcCtx.enforceNoNilResps
